@@ -92,6 +92,8 @@ def run_flow(spec):
                 for (n0, m0, t0), (n1, m1, t1) in zip(snap["T"], observe.streams(reg)):
                     dH += cpa * float(np.dot(m1, t1 - t0))
                     mag = max(mag, cpa * float(np.dot(m1, np.abs(t1 - t0))))
+                # (absolute floor: round-off of representing T ~ T0 in the enthalpy flow of the assembly's streams)
+                floor = 1e-13 * cpa * sum(float(np.sum(m1)) for (n1, m1, t1) in observe.streams(reg)) * T0
                 lost = dP - dH                       # heat that left the assembly's coolant+ducts in this step
                 cred = float(np.sum(deb[k]))         # heat the gap was credited from this assembly
                 lost_total += lost
@@ -110,7 +112,7 @@ def run_flow(spec):
                     if prev is not None and prev[1] == id(reg) and not conv[k]:
                         s6 = max(abs(prev[0]), mag / dz, 1e-300)
                         worst["asm"] = max(worst["asm"], abs(lost / dz - prev[0]) / s6)
-                        if abs(lost / dz - prev[0]) > TOL * s6:
+                        if abs(lost / dz - prev[0]) > TOL * s6 + floor / dz:
                             fails.setdefault("asm_wall_heat_6node_lag", "step %d asm %d: lost %.6e W/m vs credited "
                                              "one level earlier %.6e W/m" % (i, k, lost / dz, prev[0]))
                     exact_all = False
@@ -121,7 +123,7 @@ def run_flow(spec):
                     continue
                 s = max(abs(cred), mag, 1e-300)
                 worst["asm"] = max(worst["asm"], abs(lost - cred) / s)
-                if abs(lost - cred) > TOL * s:
+                if abs(lost - cred) > TOL * s + floor:
                     fails.setdefault("asm_wall_heat_vs_gap_credit", "step %d asm %d (%s): lost %.6e vs credited %.6e"
                                      % (i, k, kind, lost, cred))
             # (a') tally-free: everything the assemblies lose in a step is what the gap coolant gains
